@@ -334,6 +334,9 @@ def c16(ck, F, tier):
     ck.rule("SEP", "separators chosen by the printers are the tokens the parser expects in that locale", floor=6, exhaustive=True)
     guarded(ck, rp.paren_rule, F, "PAREN-moved", "move_formula::to_string_moved", exports=(None,))
     guarded(ck, rp.sep_rule, F)
+    import rules_struct as rs_
+    ck.rule("SELF-COMPARE", "in-area helpers are not called with the area's own sheet as the sheet to test", floor=5)
+    guarded(ck, rs_.tautology, F)
 
 
 _STRUCT_NOTE = ("The piecewise index maps themselves (formula references, CF ranges, links, column descriptors) being equal / inverse "
